@@ -1357,6 +1357,38 @@ func rulePipelineProduce(c *Ctx, mx *PkgIndex, rule string) {
 			}
 			good = d1 && d2 && !back
 		}
+		// one collection cycle is one critical section: the callbacks run with the pipeline lock held, like the aggregations that
+		// follow them (two overlapping Collect calls would otherwise both observe before either aggregates: one cycle reports the
+		// sum of two observations, the other nothing)
+		{
+			muKey := varKey(fn.Recv()) + resolvePath(mx.Pkg, "pipeline", ".Mutex")
+			nCalls, unheld := 0, ""
+			for _, x := range g.Nodes {
+				if x.N == nil {
+					continue
+				}
+				inspectNoLit(x.N, func(n ast.Node) bool {
+					call, ok := n.(*ast.CallExpr)
+					if !ok {
+						return true
+					}
+					v, isV := objOf(minfo, call.Fun).(*types.Var)
+					if !isV || v.IsField() {
+						return true
+					}
+					if _, isSig := v.Type().Underlying().(*types.Signature); !isSig {
+						return true
+					}
+					nCalls++
+					if !mle.Held(fn)[x][muKey] {
+						unheld = mx.M.posStr(call.Pos())
+					}
+					return true
+				})
+			}
+			c.Check(nCalls >= 1 && unheld == "", rule, "sdk/metric|(*pipeline).produce|callbacks are invoked with the pipeline lock held", at(mx.M, fn.Pos()), itoa(nCalls)+" callback invocation(s) under the lock",
+				"callbacks run outside the critical section that computes the aggregations (at "+unheld+"): two overlapping collections interleave observe/observe/aggregate/aggregate — a cycle reports observations of another cycle's callbacks")
+		}
 		c.Check(good, rule, "sdk/metric|(*pipeline).produce|callbacks precede compAgg", at(mx.M, fn.Pos()), "observable instruments are observed before they are collected",
 			"aggregations are computed before (or interleaved with) the callbacks that feed them: this cycle's observations are reported a cycle late or split")
 		// the scratch value is read from and written back to the same output slot: one index variable on …Metrics[·]
